@@ -19,7 +19,7 @@ RULE = ('one case = one (TT input, rmax); the case runs the full eps decision wa
         '(input, rmax, rank-decision sequence); non-trivial = a decision sequence that truncated at least one bond')
 ASSUMPTIONS = ['exact unfolding ranks from the checker\'s own SVD, used only with a spectral gap >= 1e6',
                'inflated inputs are built with the library\'s own + and - (validated by C03)']
-KINDS = ['raw_gauss', 'raw_scaled', 'raw_deficient', 'raw_zero', 'raw_over', 'raw_over_tall', 'inflated', 'svd_decay', 'svd_flat', 'svd_saturating', 'svd_gauss']
+KINDS = ['raw_gauss', 'raw_scaled', 'raw_tiny', 'raw_huge', 'raw_deficient', 'raw_zero', 'raw_over', 'raw_over_tall', 'inflated', 'svd_decay', 'svd_flat', 'svd_saturating', 'svd_gauss', 'tiny_decay', 'huge_decay']
 CR = 1e3
 
 
@@ -41,7 +41,7 @@ def cases(tier, seed):
     for N in shapes:
         d = len(N)
         for kind in KINDS:
-            if kind.startswith('svd') and int(np.prod(N)) < 4:
+            if (kind.startswith('svd') or kind.endswith('_decay')) and int(np.prod(N)) < 4:
                 continue
             for dt in ('f64', 'c128'):
                 if kind == 'raw_over_tall' and (d < 2 or d > 3 or max(N) > 2):
@@ -80,6 +80,14 @@ def make_input(c):
         return build(st(q, 'gauss'), 'a', c['s'])[0]
     if kind == 'raw_scaled':
         return build(st(q, 'scaled'), 'a', c['s'])[0]
+    if kind in ('raw_tiny', 'raw_huge'):
+        # overall norm far from 1 (1e-13 / 1e+13), the factor spread unevenly over the cores: every bound is relative
+        x = build(st(q, 'gauss'), 'a', c['s'])[0]
+        f = 1e-13 if kind == 'raw_tiny' else 1e13
+        cores = [cc.clone() for cc in x.cores]
+        cores[0] = cores[0] * (f ** 0.75)
+        cores[-1] = cores[-1] * (f ** 0.25) if d > 1 else cores[-1] * (f ** 0.25)
+        return torchtt.TT(cores)
     if kind == 'raw_deficient':
         return build(st([1] + [3] * (d - 1) + [1], 'deficient'), 'a', c['s'])[0]
     if kind == 'raw_zero':
@@ -92,6 +100,16 @@ def make_input(c):
     if kind == 'inflated':
         x = build(st(q, 'gauss'), 'a', c['s'])[0]
         return (x + x) - x
+    if kind in ('tiny_decay', 'huge_decay'):
+        # decaying spectra at an overall norm of 1e-13 / 1e+13 (an absolute floor or ceiling in the threshold shows)
+        x = make_input(dict(c, kind='svd_decay'))
+        f = 1e-13 if kind == 'tiny_decay' else 1e13
+        cores = [cc.clone() for cc in x.cores]
+        cores[0] = cores[0] * (f ** 0.5)
+        cores[-1] = cores[-1] * (f ** 0.5)
+        if d == 1:
+            cores[0] = x.cores[0] * f
+        return torchtt.TT(cores)
     fam = kind[4:]
     shape = (M + N) if ttm else N
     A = values.dense_family(shape, fam, dt, c['s'])
